@@ -21,6 +21,7 @@ pub struct Viol {
     pub sig: String,
     pub msg: String,
     pub step: usize,
+    pub scenario: Option<Value>, // explicit replayable scenario when it differs from the generated one (sysim sub-runs)
 }
 
 #[derive(Default)]
@@ -31,6 +32,8 @@ pub struct Outcome {
     pub probes: BTreeMap<String, u64>,
     pub steps: u64,
     pub harness: Option<String>,
+    pub subruns: u64,          // simulated executions inside this run (sysim enumerations)
+    pub sub_hashes: Vec<u64>,  // event-log hashes of the non-trivial sub-runs
 }
 
 pub struct Ctx {
@@ -88,7 +91,13 @@ impl Entry {
     }
 }
 
-#[derive(Default)]
+#[derive(Clone, Default)]
+pub struct Pre {
+    pub dest: Option<FileState>,
+    pub list: Option<BTreeMap<String, Rec>>,
+}
+
+#[derive(Clone, Default)]
 pub struct Model {
     pub keys: BTreeMap<String, Option<Entry>>, // None = removed (tombstone) ; absent = never written
     pub content: BTreeMap<String, Content>,    // content rel path -> state
@@ -97,6 +106,7 @@ pub struct Model {
     pub foreign: bool,                         // environment planted records in foreign buckets: listing not compared
     pub index_faulted: bool,
     pub cleared: bool,
+    pub index_dir: bool, // index-v5 exists as far as the history tells (an insert happened since the last clear)
 }
 
 pub struct Interp<'a> {
@@ -115,6 +125,7 @@ pub struct Interp<'a> {
     pub cwd: Option<PathBuf>,
     pub links: BTreeMap<PathBuf, Vec<String>>,   // link target path -> content rels that are symlinks to it
     pub targets: BTreeMap<PathBuf, Option<Vec<u8>>>, // files under $T as the environment last wrote them
+    pub allow_tmp_leftovers: bool,
 }
 
 fn norm_algo(a: Option<&str>) -> &str {
@@ -161,12 +172,13 @@ impl<'a> Interp<'a> {
             cwd: None,
             links: BTreeMap::new(),
             targets: BTreeMap::new(),
+            allow_tmp_leftovers: false,
         }
     }
 
     // ------------------------------------------------------------ bookkeeping
     pub fn viol(&mut self, class: &str, sig: String, msg: String) {
-        self.out.viols.push(Viol { class: class.to_string(), sig, msg, step: self.cur_step });
+        self.out.viols.push(Viol { class: class.to_string(), sig, msg, step: self.cur_step, scenario: None });
     }
     pub fn fault(&mut self, kind: &str) {
         *self.out.faults.entry(kind.to_string()).or_insert(0) += 1;
@@ -293,12 +305,14 @@ impl<'a> Interp<'a> {
         self.m.records.entry(rel).or_default().push(e.to_rec());
         self.m.inserted.push(e.clone());
         self.m.keys.insert(e.key.clone(), Some(e));
+        self.m.index_dir = true;
     }
 
     fn model_tombstone(&mut self, key: &str, time: u128) {
         let rel = hash::bucket_rel(key);
         self.m.records.entry(rel).or_default().push(Rec { key: key.to_string(), integrity: None, time, size: 0, metadata: Value::Null, raw: None });
         self.m.keys.insert(key.to_string(), None);
+        self.m.index_dir = true;
     }
 
     pub fn expected_entry(&self, key: &str) -> Option<Entry> {
@@ -386,13 +400,23 @@ impl<'a> Interp<'a> {
 
     // ------------------------------------------------------------ step execution
     pub fn run(mut self) -> Outcome {
+        let steps = self.sc["steps"].as_array().cloned().unwrap_or_default();
+        self.begin();
+        self.run_steps(&steps, 0);
+        self.cur_step = steps.len();
+        self.finish()
+    }
+
+    pub fn begin(&mut self) {
         self.clock = Some(1_700_000_000_000);
         if let Some(c) = self.sc.get("clock0").and_then(|c| c.as_str()) {
             self.clock = c.parse::<u128>().ok();
         }
-        let steps = self.sc["steps"].as_array().cloned().unwrap_or_default();
+    }
+
+    pub fn run_steps(&mut self, steps: &[Value], base: usize) {
         for (i, st) in steps.iter().enumerate() {
-            self.cur_step = i;
+            self.cur_step = base + i;
             if self.out.harness.is_some() {
                 break;
             }
@@ -411,7 +435,9 @@ impl<'a> Interp<'a> {
                 _ => {}
             }
         }
-        self.cur_step = steps.len();
+    }
+
+    pub fn finish(mut self) -> Outcome {
         if !self.lenient {
             self.final_checks();
         }
@@ -420,7 +446,6 @@ impl<'a> Interp<'a> {
             self.chdir_all(&p);
             self.cwd = None;
         }
-        // leave workers' cwd where it was
         if !self.ctx.keep_dirs {
             let _ = std::fs::remove_dir_all(&self.root);
         }
@@ -469,7 +494,8 @@ impl<'a> Interp<'a> {
         Value::Object(w)
     }
 
-    fn api_step(&mut self, st: &Value) {
+    /// Build the worker op for a symbolic step, and capture the pre-state some oracles need.
+    pub fn prepare(&mut self, st: &Value) -> (String, Value, Pre) {
         let bin = st["bin"].as_str().unwrap_or("sync").to_string();
         let mode = st["mode"].as_str().unwrap_or("sync");
         let opname = st["op"].as_str().unwrap_or("").to_string();
@@ -508,16 +534,29 @@ impl<'a> Interp<'a> {
             op.insert("mid".into(), m2);
         }
         let op = Value::Object(op);
+        let dest = st.get("to").and_then(|t| t.as_str()).map(|t| file_state(Path::new(&self.subst(t))));
+        let list = if opname == "write" && matches!(st["end"].as_str(), Some("drop") | Some("pending_drop") | Some("close_drop")) { Some(disk::scan(&self.cache).live_entries()) } else { None };
+        (bin, op, Pre { dest, list })
+    }
 
-        // pre-state needed by some oracles
-        let pre_dest = st.get("to").and_then(|t| t.as_str()).map(|t| file_state(Path::new(&self.subst(t))));
-        let pre_list = if opname == "write" && matches!(st["end"].as_str(), Some("drop") | Some("pending_drop") | Some("close_drop")) { Some(disk::scan(&self.cache).live_entries()) } else { None };
-
+    pub fn api_step(&mut self, st: &Value) {
+        let (bin, op, pre) = self.prepare(st);
         let r = self.call(&bin, &op);
         self.log_step(st, &r);
         if r["r"] == "harness" {
             return;
         }
+        self.judge(st, &r, pre);
+    }
+
+    /// Judge an observed result of an API step against the model (and advance the model).
+    pub fn judge(&mut self, st: &Value, r: &Value, pre: Pre) {
+        let bin = st["bin"].as_str().unwrap_or("sync").to_string();
+        let opname = st["op"].as_str().unwrap_or("").to_string();
+        let key = self.key(st);
+        let r = r.clone();
+        let pre_dest = pre.dest;
+        let pre_list = pre.list;
         if let Some(c) = st.get("clock_at_commit").and_then(|c| c.as_str()) {
             // the worker moved its own clock right before commit(); if the commit was reached the
             // simulated wall clock is now that instant. Either way re-sync the worker before its next call.
@@ -968,8 +1007,8 @@ impl<'a> Interp<'a> {
             return;
         }
         let errs = r["errs"].as_array().map(|a| a.len()).unwrap_or(0);
-        let index_dir = self.cache.join("index-v5").is_dir();
-        if errs > 0 && index_dir {
+        let index_dir = self.m.index_dir;
+        if errs > 0 && index_dir && !self.m.index_faulted {
             self.viol("listing", format!("listing/{}/err-items", flav), format!("listing an intact cache yielded {} error item(s): {}", errs, r["errs"]));
         }
         if self.m.foreign {
@@ -1094,6 +1133,7 @@ impl<'a> Interp<'a> {
         }
         self.m.records.clear();
         self.m.cleared = true;
+        self.m.index_dir = false;
         let d = disk::scan(&self.cache);
         if !d.content.is_empty() || !d.buckets.is_empty() || !d.tmp.is_empty() || !d.other.is_empty() {
             self.viol("removal", format!("removal/clear/{}/leftovers", flav), format!("after clear the cache still holds {} content, {} bucket, {} tmp, {} other files", d.content.len(), d.buckets.len(), d.tmp.len(), d.other.len()));
@@ -1480,6 +1520,7 @@ impl<'a> Interp<'a> {
                         }
                         self.m.records.entry(hash::bucket_rel(&r.key)).or_default().push(r.clone());
                         self.probe("reference_writer_record");
+                        self.m.index_dir = true;
                     }
                 }
             }
@@ -1589,7 +1630,7 @@ impl<'a> Interp<'a> {
             }
         }
         // temp area drained
-        if !d.tmp.is_empty() {
+        if !d.tmp.is_empty() && !self.allow_tmp_leftovers {
             // give background unlinks a moment (async writers finishing on pool threads)
             let mut left = d.tmp.clone();
             for _ in 0..200 {
@@ -1634,7 +1675,7 @@ impl<'a> Interp<'a> {
             let live = d.live_entries();
             for (k, e) in &self.m.keys.clone() {
                 let on = live.get(k).and_then(Entry::from_rec);
-                if on != *e && !self.m.index_faulted {
+                if on != *e {
                     self.viol("format", "format/decode-differs".to_string(), format!("independent decode of key {:?} gives {:?} but the model says {:?}", k, on, e));
                 }
             }
@@ -1784,7 +1825,7 @@ pub fn run_tri(ctx: &mut Ctx, sc: &Value, run_id: &str) -> Outcome {
     let names = ["sync", "astd", "tokio"];
     let n = outs.iter().map(|o| o.log.len()).min().unwrap_or(0);
     if outs.iter().any(|o| o.log.len() != n) && outs.iter().all(|o| o.harness.is_none()) {
-        res.viols.push(Viol { class: "flavour-diff".into(), sig: "flavour-diff/log-length".into(), msg: format!("step logs differ in length: {:?}", outs.iter().map(|o| o.log.len()).collect::<Vec<_>>()), step: n });
+        res.viols.push(Viol { class: "flavour-diff".into(), sig: "flavour-diff/log-length".into(), msg: format!("step logs differ in length: {:?}", outs.iter().map(|o| o.log.len()).collect::<Vec<_>>()), step: n, scenario: None });
     }
     for i in 0..n {
         let rs: Vec<&Value> = outs.iter().map(|o| &o.log[i]["r"]).collect();
@@ -1820,7 +1861,7 @@ pub fn run_tri(ctx: &mut Ctx, sc: &Value, run_id: &str) -> Outcome {
                 }
             };
             let sig = format!("flavour-diff/{}/{}/{}|{}|{}", op, field, brief(&ns[0]), brief(&ns[1]), brief(&ns[2]));
-            res.viols.push(Viol { class: "flavour-diff".into(), sig, msg: format!("step {} ({}) differs across flavours:\n  {}: {}\n  {}: {}\n  {}: {}", i, outs[0].log[i]["s"], names[0], rs[0], names[1], rs[1], names[2], rs[2]), step: i });
+            res.viols.push(Viol { class: "flavour-diff".into(), sig, msg: format!("step {} ({}) differs across flavours:\n  {}: {}\n  {}: {}\n  {}: {}", i, outs[0].log[i]["s"], names[0], rs[0], names[1], rs[1], names[2], rs[2]), step: i, scenario: None });
             break; // later differences are consequences
         }
     }
@@ -1831,7 +1872,7 @@ pub fn run_tri(ctx: &mut Ctx, sc: &Value, run_id: &str) -> Outcome {
         } else if disks[0]["tmp"] != disks[1]["tmp"] || disks[0]["tmp"] != disks[2]["tmp"] {
             which = "tmp";
         }
-        res.viols.push(Viol { class: "flavour-diff".into(), sig: format!("flavour-diff/final-cache/{}", which), msg: format!("final caches decode differently ({}):\n sync: {}\n astd: {}\n tokio: {}", which, disks[0], disks[1], disks[2]), step: n });
+        res.viols.push(Viol { class: "flavour-diff".into(), sig: format!("flavour-diff/final-cache/{}", which), msg: format!("final caches decode differently ({}):\n sync: {}\n astd: {}\n tokio: {}", which, disks[0], disks[1], disks[2]), step: n, scenario: None });
     }
     // carry logs/probes of the sync run, steps of all; other-class violations of the single runs are kept (not owned by C12)
     for (i, o) in outs.into_iter().enumerate() {
